@@ -10,9 +10,25 @@ mod comp;
 
 use std::io::{BufRead, Write};
 
+thread_local! {
+    static LAST_PANIC: std::cell::RefCell<String> = const { std::cell::RefCell::new(String::new()) };
+}
+
 fn main() {
-    // keep panics quiet: they are an observable outcome here, not a crash
-    std::panic::set_hook(Box::new(|_| {}));
+    // keep panics quiet: they are an observable outcome here, not a crash.
+    // With VERIF_PANIC_MSG=1 the answer is `PANIC <TAB> <message @ location>` instead of bare `PANIC`.
+    let with_msg = std::env::var("VERIF_PANIC_MSG").map(|v| v == "1").unwrap_or(false);
+    std::panic::set_hook(Box::new(|info| {
+        let msg = if let Some(s) = info.payload().downcast_ref::<&str>() {
+            s.to_string()
+        } else if let Some(s) = info.payload().downcast_ref::<String>() {
+            s.clone()
+        } else {
+            "?".to_string()
+        };
+        let loc = info.location().map(|l| format!("{}:{}", l.file(), l.line())).unwrap_or_default();
+        LAST_PANIC.with(|c| *c.borrow_mut() = format!("{msg} @ {loc}").replace(['\t', '\n'], " "));
+    }));
     let stdin = std::io::stdin();
     let stdout = std::io::stdout();
     let mut out = std::io::BufWriter::new(stdout.lock());
@@ -36,7 +52,13 @@ fn main() {
         let text = match res {
             Ok(Some(s)) => s,
             Ok(None) => format!("NOCOMP\t{comp_name}"),
-            Err(_) => "PANIC".to_string(),
+            Err(_) => {
+                if with_msg {
+                    format!("PANIC\t{}", LAST_PANIC.with(|c| c.borrow().clone()))
+                } else {
+                    "PANIC".to_string()
+                }
+            }
         };
         let _ = writeln!(out, "{id}\t{text}");
     }
